@@ -224,6 +224,27 @@ ROUND8 = {
 }
 for _k, _v in ROUND8.items():
     CLAIMED[_k]["text"] += _v
+ROUND9 = {
+ "C01": " Round 7: an extent handed to ext2fs_extent_insert() by the tree rebuild has been measured against the maximum of its kind (C01.p).",
+ "C02": " Round 7: `start + len - 1` is held to the exclusive comparison with the block count as well (C02.e).",
+ "C03": " Round 7: transaction numbers are compared on a 32-bit signed difference (C03.j).",
+ "C05": " Round 7: an inline directory whose EA part is exactly one entry is not too small (C05.j).",
+ "C06": " Round 7: an extent block is checksummed only after its header was verified (C06.m); path_append() counts separator and NUL (C06.l; genuine defect repaired).",
+ "C07": " Round 7: the orphan file is charged the blocks its walk allocated (C07.h).",
+ "C08": " Round 7: a renumbered inode takes the superblock's reference along (C08.i; genuine defect repaired); a shortened bad-block list is written back on every successful return (C08.j).",
+ "C09": " Round 7: punching a hole into an extent cuts nothing before the right half is inserted (C09.z).",
+ "C10": " Round 7: debugfs rm/rmdir release the inode only behind the outcome of the unlink (C10.n; genuine defect repaired); the hash version kept for a directory is the one its names are looked up with (C10.o).",
+ "C11": " Round 7: `-O none` consults clear_ok_array (C11.p; genuine defect repaired); a quota leaf leaves the free list when its last slot is taken (C11.q).",
+ "C12": " Round 7: -I keeps the undo file given with -z (C12.m) and an empty run leaves a well-formed undo file (C12.n) - two genuine defects repaired; an odd-sized unix_io write is preceded by a write-back of the whole cache (C12.o).",
+ "C14": " Round 7: every block of a renumbered directory is rewritten, empty ones too (C14.m).",
+ "C15": " Round 7: a value inode marked before it is filled is un-marked on the failing path (C15.k).",
+ "C16": " Round 7: the read cursor and its successor move together (C16.j).",
+ "C17": " Round 7: a bounce-buffered write pre-reads a unit entered at a non-zero offset (C17.f).",
+ "C18": " Round 7: no populate step writes back a stale parent inode (C18.k, shared with C10.i).",
+ "C20": " Round 7: a backup slot follows the last group only from there (C20.i; genuine defect repaired); old backup blocks are released only when no new slot names the group (C20.j).",
+}
+for _k, _v in ROUND9.items():
+    CLAIMED[_k]["text"] += _v
 for _k in CLAIMED:
     CLAIMED[_k]["text"] += " Names of locals, parameters and file-local functions are mapped onto the pinned tree's before any rule runs (renaming all of them is silent)."
 
